@@ -463,7 +463,7 @@ func runC04(c *fw.Ctx) {
 	for _, k := range sn {
 		inputs = append(inputs, input{"snippet:" + k, []byte(snips[k])})
 	}
-	if b := readFile("/repo/gendst/data/positions.go"); b != nil {
+	if b := readFile(repoDir()+"/gendst/data/positions.go"); b != nil {
 		inputs = append(inputs, input{"repo:gendst/data/positions.go", b})
 	}
 	for _, p := range corpus.Sample(c.Rand("files"), c.Pick(60, 1500)) {
